@@ -312,6 +312,16 @@ def judge_enc(ctx, c):
     ic = input_class(fmt, x)
     kw_good = None
     with util.options(mxfp_overflow=mode, lsb0=False):
+        if 'reject' in c:
+            # an assignment the option refuses must leave the current setting in force
+            bad = {'none': None, 'zero': 0}.get(c['reject'], c['reject'])
+            r = call(lambda: setattr(bitstring.options, 'mxfp_overflow', bad))
+            ctx.op('option-reject', outcome(r))
+            now = bitstring.options.mxfp_overflow
+            if r[0] == 'ok' or now != mode:
+                ctx.mismatch('C11|option|mxfp_overflow:invalid-value|' + ('accepted' if r[0] == 'ok' else 'setting-changed-by-rejected-assignment'), c,
+                             f'mxfp_overflow = {bad!r}: now {now!r}, was {mode!r}')
+                bitstring.options.mxfp_overflow = mode
         for route in c['routes']:
             res = lib_encode(route, c['cls'], fmt, nm, x)
             ctx.op('encode:' + route, outcome(res))
@@ -748,6 +758,8 @@ def run(ctx):
             x = 2.0 ** rng.randint(-140, 140) if rng.random() < 0.8 else rng.choice(ulp_nb(2.0 ** rng.randint(-127, 127)))
         c = {'k': 'enc', 'fmt': fmt, 'nm': spell(fmt), 'mode': rng.choice(MODES), 'x': hx(x),
              'routes': ['kw', rng.choice(other_routes)], 'cls': rng.choice(util.CLASS_NAMES)}
+        if _ % 9 == 4:
+            c['reject'] = rng.choice(['Saturate', 'clip', 'none', '', 'OVERFLOW', 'zero', 'saturate ', 'overflow,saturate'])
         ctx.run_case(judge, c)
         if _ % 1999 == 0:
             ctx.sample(c)
